@@ -99,10 +99,10 @@ def standin_clientsim(prop, tier, seed, scratch, root):
     """randomised simulation of the real client against a model MPD server (schedules x notifications x chunking x faults)"""
     import replay as RP, json
     from concurrent.futures import ThreadPoolExecutor
-    per = 5000 if tier != 'thorough' else 120000
+    per = 3000 if tier != 'thorough' else 60000
     workers = 8
     base = 1 + max(seed, 0) * 10_000_000
-    row = {'function': 'run_loop, run_loop_iteration, handle_command, handle_idle_response, Client::{connect*, raw_command, raw_command_list, is_connection_closed}, ConnectionEvents::next end to end over AsyncConnection',
+    row = {'function': 'run_loop, run_loop_iteration, handle_command, handle_idle_response, Client::{connect*, raw_command, raw_command_list, album_art, is_connection_closed}, ConnectionEvents::next end to end over AsyncConnection',
            'engine': 'native randomised simulation: the real client over tokio::io::duplex against a model of MPD (idle rules, one reply per request in order), virtual time, single-threaded runtime (replay/src/bin/client_sim.rs)',
            'label': 'bounded', 'cases': per * workers, 'violations': []}
     def one(k):
@@ -114,7 +114,7 @@ def standin_clientsim(prop, tier, seed, scratch, root):
         row['undecided'] = next(r for r in rs if not r.get('ran')).get('reason', 'simulation did not run'); return row
     bad = [r for r in rs if r['fails']]
     row['bound'] = ('%d scenarios (seeds %d..%d): 0-3 concurrent callers x <=4 requests each (single / list, failing at any index, with partial output, binary payloads), caller cancellation, '
-                    '<=4 notification bursts of <=3 names, reply delays around the 100 ms re-idle window, reply chunking 1..7 bytes, faults (cut at any byte, close, garbage, ACK to idle), password handshakes; '
+                    '<=4 notification bursts of <=3 names, reply delays around the 100 ms re-idle window, reply chunking 1..7 bytes, faults (cut at any byte, close, garbage, ACK to idle), password handshakes, album art loads (embedded / cover file / readpicture unknown / neither / other error; sizes 0..20000, chunk limits 1..8192, with and without MIME type); '
                     'idle replies are written atomically whenever requests exist (the split case is known finding C04.cancel_safe)' % (per * workers, base, base + per * workers - 1))
     if not bad:
         js = [json.loads(r.get('full_output', r['output']).strip().split('\n')[-1]) for r in rs]
